@@ -285,4 +285,185 @@ theorem tv_ova_hasDerivAt {ε : ℝ} (P : Fin n → Fin K → ℝ) (hI : Interio
   refine Finset.sum_congr rfl fun i _ => ?_
   ring
 
+/- the hypotheses of `tv_ova_hasDerivAt` are satisfiable (a 2×2 point of the simplex) -/
+example : ∃ P : Fin 2 → Fin 2 → ℝ, Interior (1 / 10) P ∧ ∀ i k, P i k ≠ Spec.pi P k :=
+  ⟨exP, exP_interior, exP_tv_ova⟩
+
+/-- MMD one-vs-all with a symmetric affinity: at interior points where every distance `delta[k]` is
+    positive (the score is differentiable there) the returned gradient is the exact derivative of the
+    score along every direction. -/
+theorem mmd_ova_hasDerivAt (hn : 0 < n) {ε : ℝ} (hε : 0 < ε) (P : Fin n → Fin K → ℝ) (hI : Interior ε P)
+    (κ : Fin n → Fin n → ℝ) (hκ : ∀ i j, κ i j = κ j i) (hδ : ∀ k, 0 < mmdDeltaOva ε P κ k)
+    (V : Fin n → Fin K → ℝ) :
+    HasDerivAt (fun t : ℝ => mmdScore ε false (fun i k => P i k + t * V i k) κ)
+      (∑ i, ∑ k, mmdGrad ε false P κ i k * V i k) 0 := by
+  have hev : (fun t : ℝ => mmdScore ε false (line P V t) κ) =ᶠ[𝓝 0] fun t => _ :=
+    (interior_eventually hI V).mono fun t ht => mmdScore_ova_interior ht κ
+  refine HasDerivAt.congr_of_eventuallyEq ?_ hev
+  have hπ : ∀ k, Spec.pi P k ≠ 0 := fun k => (pi_pos hε hn hI k).ne'
+  set q : Fin n → Fin n → ℝ := fun i j => κ i j / (n * n) with hq
+  have hqs : ∀ i j, q i j = q j i := fun i j => by simp only [hq, hκ i j]
+  have hrad : ∀ k, 0 < quadForm q (fun i => P i k / Spec.pi P k) := fun k => by
+    have h := hδ k
+    rw [mmdDeltaOva_interior hI, Real.sqrt_pos] at h
+    exact lt_max_iff.mp h |>.resolve_right (lt_irrefl _)
+  have hcw : ∀ i k, HasDerivAt (fun t => line P V t i k / Spec.pi (line P V t) k)
+      ((V i k * Spec.pi P k - P i k * Spec.pi V k) / Spec.pi P k ^ 2) 0 := fun i k => by
+    simpa using (hasDerivAt_line P V i k).fun_div (hasDerivAt_pi_line P V k) (by simpa using hπ k)
+  have h1 : ∀ k, HasDerivAt (fun t => Spec.pi (line P V t) k
+        * Real.sqrt (max (quadForm q (fun i => line P V t i k / Spec.pi (line P V t) k)) 0))
+      (Spec.pi V k * mmdDeltaOva ε P κ k + Spec.pi P k *
+        ((2 * ∑ i, (V i k * Spec.pi P k - P i k * Spec.pi V k) / Spec.pi P k ^ 2
+            * ∑ j, q i j * (P j k / Spec.pi P k - 1)) / (2 * mmdDeltaOva ε P κ k))) 0 := fun k => by
+    have h := hasDerivAt_max_zero (quadForm_hasDerivAt hqs (fun i => hcw i k)) (by simpa using hrad k)
+    have h' := (hasDerivAt_pi_line P V k).fun_mul (h.sqrt (by simpa only [line_zero] using (lt_max_of_lt_left (hrad k)).ne'))
+    simpa [mmdDeltaOva_interior hI] using h'
+  refine (HasDerivAt.fun_sum fun k _ => h1 k).congr_deriv ?_
+  rw [grad_sum_split _ (fun i k => (∑ j, q i j * (P j k / Spec.pi P k - 1)) / mmdDeltaOva ε P κ k)
+    (fun k => -(∑ l, ∑ j, q l j * (P j k / Spec.pi P k - 1)) / mmdDeltaOva ε P κ k) V
+    (fun i k => by rw [mmdGrad_ova_interior hI κ i k (hδ k).ne']; ring)]
+  refine Finset.sum_congr rfl fun k _ => ?_
+  have hd2 : mmdDeltaOva ε P κ k * mmdDeltaOva ε P κ k
+      = ∑ i, (P i k / Spec.pi P k - 1) * ∑ j, q i j * (P j k / Spec.pi P k - 1) := by
+    rw [mmdDeltaOva_interior hI, Real.mul_self_sqrt (le_max_right _ _), max_eq_left (hrad k).le,
+      quadForm_eq hqs]
+  have hd0 := (hδ k).ne'
+  have := hπ k
+  generalize mmdDeltaOva ε P κ k = δ at *
+  obtain ⟨m, hm⟩ : ∃ m : Fin n → ℝ, ∀ i, m i = ∑ j, q i j * (P j k / Spec.pi P k - 1) := ⟨_, fun _ => rfl⟩
+  simp only [← hm] at hd2 ⊢
+  generalize Spec.pi P k = π at *
+  generalize Spec.pi V k = w
+  have e1 : ∑ i, (V i k * π - P i k * w) / π ^ 2 * m i
+      = (∑ i, V i k * m i) / π - w * (∑ i, P i k * m i) / π ^ 2 := by
+    rw [Finset.mul_sum, Finset.sum_div, Finset.sum_div, ← Finset.sum_sub_distrib]
+    refine Finset.sum_congr rfl fun i _ => ?_
+    field_simp
+  have e2 : ∑ i, (P i k / π - 1) * m i = (∑ i, P i k * m i) / π - ∑ i, m i := by
+    rw [Finset.sum_div, ← Finset.sum_sub_distrib]
+    refine Finset.sum_congr rfl fun i _ => ?_
+    field_simp
+  have e3 : ∑ i, m i / δ * V i k = (∑ i, V i k * m i) / δ := by
+    rw [Finset.sum_div]
+    refine Finset.sum_congr rfl fun i _ => ?_
+    ring
+  rw [e1, e3]; rw [e2] at hd2
+  generalize (∑ i, V i k * m i) = S1 at *
+  generalize (∑ i, P i k * m i) = S2 at *
+  generalize (∑ i, m i) = S3 at *
+  field_simp
+  have hd2' : δ ^ 2 * π = S2 - S3 * π := by
+    have := hd2; field_simp at this; linarith
+  linear_combination w * hd2'
+
+/- the hypotheses of `mmd_ova_hasDerivAt` are satisfiable (identity affinity) -/
+example : ∃ (P : Fin 2 → Fin 2 → ℝ) (κ : Fin 2 → Fin 2 → ℝ), Interior (1 / 10) P ∧ (∀ i j, κ i j = κ j i) ∧
+    ∀ k, 0 < mmdDeltaOva (1 / 10) P κ k :=
+  ⟨exP, exK, exP_interior, exK_symm, exP_mmd_ova⟩
+
+/-- TV one-vs-one: at interior points where no off-diagonal difference `π_a P_ib - π_b P_ia` vanishes
+    (the score is differentiable there; the diagonal differences are identically 0 and contribute
+    nothing) the returned gradient is the exact derivative of the score along every direction. -/
+theorem tv_ovo_hasDerivAt {ε : ℝ} (P : Fin n → Fin K → ℝ) (hI : Interior ε P)
+    (hne : ∀ i a b, a ≠ b → Spec.pi P a * P i b ≠ Spec.pi P b * P i a) (V : Fin n → Fin K → ℝ) :
+    HasDerivAt (fun t : ℝ => tvScore ε true (fun i k => P i k + t * V i k))
+      (∑ i, ∑ k, tvGrad ε true P i k * V i k) 0 := by
+  have hev : (fun t : ℝ => tvScore ε true (line P V t)) =ᶠ[𝓝 0] fun t => _ :=
+    (interior_eventually hI V).mono fun t ht => tvScore_ovo_interior ht
+  refine HasDerivAt.congr_of_eventuallyEq ?_ hev
+  have h1 : ∀ i a b, HasDerivAt
+      (fun t => |Spec.pi (line P V t) a * line P V t i b - Spec.pi (line P V t) b * line P V t i a|)
+      (tvSign P i a b * (Spec.pi V a * P i b + Spec.pi P a * V i b
+        - (Spec.pi V b * P i a + Spec.pi P b * V i a))) 0 := fun i a b => by
+    by_cases hab : a = b
+    · subst hab
+      simp only [sub_self, abs_zero, tvSign, RealLike.sign, RealLike.lt_real, lt_self_iff_false,
+        decide_false, Bool.false_eq_true, if_false, zero_mul]
+      exact hasDerivAt_const _ _
+    · simpa [tvSign] using hasDerivAt_abs_sign
+        (((hasDerivAt_pi_line P V a).fun_mul (hasDerivAt_line P V i b)).fun_sub
+          ((hasDerivAt_pi_line P V b).fun_mul (hasDerivAt_line P V i a)))
+        (by simpa using sub_ne_zero.mpr (hne i a b hab))
+  refine ((HasDerivAt.fun_sum fun a _ => HasDerivAt.fun_sum fun b _ =>
+    (HasDerivAt.fun_sum fun i _ => h1 i a b).div_const _).const_mul _).congr_deriv ?_
+  rw [tv_ovo_algebra]
+  refine (grad_sum_split _ _ _ V fun i k => ?_).symm
+  rw [tvGrad_ovo_interior hI]
+  have e1 : ∑ a, Spec.pi P a * (tvSign P i a k / n - tvSign P i k a / n)
+      = (∑ a, Spec.pi P a * (tvSign P i a k - tvSign P i k a)) / n := by
+    rw [Finset.sum_div]; exact Finset.sum_congr rfl fun a _ => by ring
+  have e2 : ∑ j, ∑ b, (tvSign P j k b / n - tvSign P j b k / n) * P j b
+      = -(∑ j, ∑ a, P j a * (tvSign P j a k - tvSign P j k a)) / n := by
+    rw [← Finset.sum_neg_distrib, Finset.sum_div]
+    refine Finset.sum_congr rfl fun j _ => ?_
+    rw [← Finset.sum_neg_distrib, Finset.sum_div]
+    exact Finset.sum_congr rfl fun a _ => by ring
+  rw [e1, e2]
+  ring
+
+/- the hypotheses of `tv_ovo_hasDerivAt` are satisfiable -/
+example : ∃ P : Fin 2 → Fin 2 → ℝ, Interior (1 / 10) P ∧
+    ∀ i a b, a ≠ b → Spec.pi P a * P i b ≠ Spec.pi P b * P i a :=
+  ⟨exP, exP_interior, exP_tv_ovo⟩
+
+/-- MMD one-vs-one with a symmetric affinity: at interior points where every off-diagonal distance
+    `delta[a,b]` is positive (the score is differentiable there; the diagonal distances are identically 0
+    and contribute nothing) the returned gradient is the exact derivative of the score along every
+    direction. -/
+theorem mmd_ovo_hasDerivAt (hn : 0 < n) {ε : ℝ} (hε : 0 < ε) (P : Fin n → Fin K → ℝ) (hI : Interior ε P)
+    (κ : Fin n → Fin n → ℝ) (hκ : ∀ i j, κ i j = κ j i)
+    (hδ : ∀ a b, a ≠ b → 0 < mmdDeltaOvo ε P κ a b) (V : Fin n → Fin K → ℝ) :
+    HasDerivAt (fun t : ℝ => mmdScore ε true (fun i k => P i k + t * V i k) κ)
+      (∑ i, ∑ k, mmdGrad ε true P κ i k * V i k) 0 := by
+  have hev : (fun t : ℝ => mmdScore ε true (line P V t) κ) =ᶠ[𝓝 0] fun t => _ :=
+    (interior_eventually hI V).mono fun t ht => mmdScore_ovo_interior ht κ
+  refine HasDerivAt.congr_of_eventuallyEq ?_ hev
+  have hπ : ∀ k, Spec.pi P k ≠ 0 := fun k => (pi_pos hε hn hI k).ne'
+  set q : Fin n → Fin n → ℝ := fun i j => κ i j / (n * n) with hq
+  have hqs : ∀ i j, q i j = q j i := fun i j => by simp only [hq, hκ i j]
+  have hrad : ∀ a b, a ≠ b → 0 < radOvo q (fun k i => P i k / Spec.pi P k) a b := fun a b hab => by
+    have h := hδ a b hab
+    rw [mmdDeltaOvo_interior hI, Real.sqrt_pos] at h
+    exact lt_max_iff.mp h |>.resolve_right (lt_irrefl _)
+  have hcw : ∀ k i, HasDerivAt (fun t => line P V t i k / Spec.pi (line P V t) k)
+      ((V i k * Spec.pi P k - P i k * Spec.pi V k) / Spec.pi P k ^ 2) 0 := fun k i => by
+    simpa using (hasDerivAt_line P V i k).fun_div (hasDerivAt_pi_line P V k) (by simpa using hπ k)
+  have h1 : ∀ a b, HasDerivAt (fun t => Spec.pi (line P V t) a
+        * Real.sqrt (max (radOvo q (fun k i => line P V t i k / Spec.pi (line P V t) k) a b) 0))
+      (Spec.pi V a * mmdDeltaOvo ε P κ a b + Spec.pi P a * (if a = b then 0 else
+        (2 * ∑ i, ((V i a * Spec.pi P a - P i a * Spec.pi V a) / Spec.pi P a ^ 2
+            - (V i b * Spec.pi P b - P i b * Spec.pi V b) / Spec.pi P b ^ 2)
+          * ((∑ j, q i j * (P j a / Spec.pi P a)) - ∑ j, q i j * (P j b / Spec.pi P b)))
+          / (2 * mmdDeltaOvo ε P κ a b))) 0 := fun a b => by
+    by_cases hab : a = b
+    · subst hab
+      simp only [radOvo_self, max_self, Real.sqrt_zero, mul_zero, mmdDeltaOvo_self hI, if_true, add_zero]
+      exact hasDerivAt_const _ _
+    · have h := hasDerivAt_max_zero (radOvo_hasDerivAt hqs hcw a b) (by simpa using hrad a b hab)
+      have h' := (hasDerivAt_pi_line P V a).fun_mul
+        (h.sqrt (by simpa only [line_zero] using (lt_max_of_lt_left (hrad a b hab)).ne'))
+      rw [if_neg hab]
+      simpa [mmdDeltaOvo_interior hI] using h'
+  have h2 := HasDerivAt.fun_sum (u := Finset.univ) fun b _ =>
+    (HasDerivAt.fun_sum (u := Finset.univ) fun a _ => h1 a b).fun_mul (hasDerivAt_pi_line P V b)
+  refine h2.congr_deriv ?_
+  have hδe : ∀ a b, Real.sqrt (max (radOvo q (fun k i => P i k / Spec.pi P k) a b) 0)
+      = mmdDeltaOvo ε P κ a b := fun a b => (mmdDeltaOvo_interior hI κ a b).symm
+  simp only [line_zero, hδe]
+  obtain ⟨g, hg⟩ : ∃ g : Fin n → Fin K → ℝ, ∀ i k, g i k = ∑ j, q i j * (P j k / Spec.pi P k) :=
+    ⟨_, fun _ _ => rfl⟩
+  simp only [← hg]
+  rw [mmd_ovo_algebra (Spec.pi P) (Spec.pi V) hπ (mmdDeltaOvo ε P κ) (mmdDeltaOvo_symm hI hκ)
+    (fun a b hab => (hδ a b hab).ne') P V g]
+  refine (grad_sum_split _ _ _ V fun i k => ?_).symm
+  rw [mmdGrad_ovo_interior hI κ (fun a b hab => (hδ a b hab).ne')]
+  have hg2 : ∀ i k, ∑ j, κ i j / (n * n) * (P j k / Spec.pi P k) = g i k := fun i k => (hg i k).symm
+  simp only [hg2]
+  ring
+
+/- the hypotheses of `mmd_ovo_hasDerivAt` are satisfiable (identity affinity) -/
+example : ∃ (P : Fin 2 → Fin 2 → ℝ) (κ : Fin 2 → Fin 2 → ℝ), Interior (1 / 10) P ∧ (∀ i j, κ i j = κ j i) ∧
+    ∀ a b, a ≠ b → 0 < mmdDeltaOvo (1 / 10) P κ a b :=
+  ⟨exP, exK, exP_interior, exK_symm, exP_mmd_ovo⟩
+
 end GemVerif.Props.C02
